@@ -818,8 +818,7 @@ class PauliStringLinear(PauliString):
         for coeff, pauli in self:
             # The PauliString class should have an `is_identity()` method
             if pauli.is_identity():
-                identity_coeff = coeff
-                break  # Found it, no need to look further
+                identity_coeff += coeff
 
         # If there was no identity term, its coefficient is zero, so trace is zero.
         if identity_coeff == 0:
